@@ -218,3 +218,34 @@ Definition sstep (report_every : option nat) (t : sthread) (sh : sshared) : sthr
   end.
 Definition stats_run (report_every : option nat) (m : nat) (sched : list nat) : sshared * list sthread :=
   run _ _ (sstep report_every) ({| s_answered := false; s_copied := 0 |}, [SCopy m; SBackend]) sched.
+
+(* -------------------------------------------------------------------------------------------------
+   The teardown order of runBridgeLifecycle after bridge.Start() has returned (server_bridge.go):
+     MapFirst     = the code: delete(s.tunnelBridges, id) first, then tunnelRouting.RemoveWaitingTunnel (a storage Delete
+                    without context or timeout, which may answer arbitrarily late or never)
+     RoutingFirst = the routing record is removed first (seeded C02-23)
+   Histories of events: a step of the lifecycle goroutine, or the routing store answering. *)
+Inductive td_order := MapFirst | RoutingFirst.
+Inductive td_event := TdStep | TdStoreAnswers.
+Inductive td_pc := TdMap | TdRouting | TdDone.
+Record td_state := { td_at : td_pc; td_in_map : bool; td_answered : bool }.
+Definition td_first (o : td_order) : td_pc := match o with MapFirst => TdMap | RoutingFirst => TdRouting end.
+Definition td_next (o : td_order) (pc : td_pc) : td_pc :=
+  match o, pc with
+  | MapFirst, TdMap => TdRouting | MapFirst, TdRouting => TdDone
+  | RoutingFirst, TdRouting => TdMap | RoutingFirst, TdMap => TdDone
+  | _, TdDone => TdDone
+  end.
+Definition td_step (o : td_order) (s : td_state) (e : td_event) : td_state :=
+  match e with
+  | TdStoreAnswers => {| td_at := td_at s; td_in_map := td_in_map s; td_answered := true |}
+  | TdStep =>
+      match td_at s with
+      | TdMap => {| td_at := td_next o TdMap; td_in_map := false; td_answered := td_answered s |}
+      | TdRouting => if td_answered s then {| td_at := td_next o TdRouting; td_in_map := td_in_map s; td_answered := true |}
+                     else s                                                  (* parked in the store's Delete *)
+      | TdDone => s
+      end
+  end.
+Definition td_run (o : td_order) (h : list td_event) : td_state :=
+  fold_left (td_step o) h {| td_at := td_first o; td_in_map := true; td_answered := false |}.
